@@ -509,3 +509,30 @@ impl<'a> Reader<Vec<u8>> for ReentrantReader<'a> {
         self.inner.skip_bytes(length)
     }
 }
+
+/// An owning buffer type for `Reader<T>`: a lease from a pool that wipes its octets when it is
+/// given back (dropped). Whatever the codec wants to keep it must have copied before it lets go
+/// of the lease.
+pub struct WipingBuf(pub Vec<u8>);
+
+impl std::borrow::Borrow<[u8]> for WipingBuf {
+    fn borrow(&self) -> &[u8] {
+        &self.0
+    }
+}
+
+impl Drop for WipingBuf {
+    fn drop(&mut self) {
+        for x in self.0.iter_mut() {
+            *x = 0;
+        }
+        // keep the wipe from being optimised away
+        std::hint::black_box(&self.0);
+    }
+}
+
+impl<'a> FromOctets<'a> for WipingBuf {
+    fn from_octets(s: &'a [u8]) -> Self {
+        WipingBuf(s.to_vec())
+    }
+}
